@@ -20,7 +20,8 @@
 // Contract mirrored from pkg/aliyun/client (read there): the ECS assign calls answer
 // (nil, err) on any error; the EFLO assign call may answer ([{IPName}], err) when the
 // address was created but did not become available; Detach of a missing interface and
-// UnAssign of missing addresses succeed; Delete of a missing interface fails with
+// UnAssign of missing addresses succeed; DescribeNetworkInterfaces ANDs its filters unless
+// LenientDescribeByID is set; Delete of a missing interface fails with
 // InvalidEniId.NotFound on ECS and succeeds on EFLO; the ECS create answer carries no
 // traffic mode; WaitForNetworkInterface polls Describe at most backoff.Steps times.
 // The backend (ECS or EFLO) is chosen per call from the context exactly as the real
@@ -182,10 +183,10 @@ type Call struct {
 	Fault    *Fault
 	Err      string // "" = success, else error text
 	ErrCode  string
-	Told     []*ENI   // interfaces contained in the answer (describe, wait, create)
-	ToldIPs  []IP     // addresses contained in the answer (assign)
-	Polls    int      // wait: polls used
-	Effect   bool     // the call changed the cloud
+	Told     []*ENI // interfaces contained in the answer (describe, wait, create)
+	ToldIPs  []IP   // addresses contained in the answer (assign)
+	Polls    int    // wait: polls used
+	Effect   bool   // the call changed the cloud
 }
 
 // Mutating reports whether the call kind changes cloud state.
@@ -235,6 +236,12 @@ type Cloud struct {
 	// status (Attaching / Detaching / Executing) before it settles. 0 = immediately.
 	AttachPolls int
 	DetachPolls int
+
+	// LenientDescribeByID: a Describe that names interface ids AND an instance id also
+	// answers interfaces that are attached to no instance at all (the instance filter only
+	// excludes interfaces of other instances). false = strict AND of all filters. Which of
+	// the two the real API does cannot be decided offline; harnesses quantify over both.
+	LenientDescribeByID bool
 
 	// InstanceTypes answers DescribeInstanceTypes; NodeInfo answers GetNodeInfoForPod.
 	InstanceTypes map[string]ecs.InstanceType
@@ -914,10 +921,11 @@ func (cl *Cloud) describe(c *Call) []*aliyunClient.NetworkInterface {
 		if c.EFLO != e.EFLO {
 			continue
 		}
-		if c.Instance == "" || e.InstanceID == c.Instance {
+		lenient := cl.LenientDescribeByID && len(ids) > 0 && e.InstanceID == ""
+		if c.Instance == "" || e.InstanceID == c.Instance || lenient {
 			e.tick() // observed: a middle status advances
 		}
-		if c.Instance != "" && e.InstanceID != c.Instance {
+		if c.Instance != "" && e.InstanceID != c.Instance && !lenient {
 			continue
 		}
 		if c.Instance != "" && e.Type == aliyunClient.ENITypeMember {
